@@ -30,7 +30,11 @@ const (
 )
 
 // aliasAddrs are added to the private lo (one per refused class).
-var aliasAddrs = []string{"10.77.0.1", "172.16.5.1", "192.168.77.1", "169.254.169.254", "100.64.0.1", "fd12::1"}
+var aliasAddrs = []string{"10.77.0.1", "172.16.5.1", "192.168.77.1", "169.254.169.254", "100.64.0.1", "fd12::1",
+	// IPv6 forms that EMBED a refused IPv4 address of the pool ("twins", see poolCandidates): a
+	// listener bound to such a form observes a connect that the floor must refuse even when the
+	// embedded IPv4 (IP, port) pair itself is carved out
+	"64:ff9b::7f00:1", "2002:7f00:1::1", "::ffff:0:7f00:1", "::7f00:1", "64:ff9b::a9fe:a9fe", "2002:a9fe:a9fe::1", "64:ff9b::a4d:1"}
 
 var netnsActive bool
 
